@@ -427,3 +427,42 @@ def record_length(data):
     if len(lens) != 1:
         return None
     return lens.pop()
+
+
+# ------------------------------------------------------------------------------------------
+# shared eABF: the CZAR gather on replica 0 (replica_share_CZAR, run by write_output_files on all replicas)
+# ------------------------------------------------------------------------------------------
+
+def czar_conf(case):
+    return ["colvar {", "  name v0", "  lowerBoundary 0", "  upperBoundary %d" % case["nbins"], "  width 1",
+            "  extendedLagrangian on", "  extendedFluctuation 0.5", "  extendedTimeConstant 8", "  extendedTemp 300",
+            "  distanceZ {", "    main { atomNumbers 1 }", "    ref { dummyAtom (0,0,0) }", "    axis (0,0,1)", "  }", "}",
+            "abf {", "  name a", "  colvars v0", "  fullSamples 2", "  shared on", "  sharedFreq %d" % case["freq"], "}"]
+
+
+def run_czar(exe, case, scratch, timeout=30.0):
+    """all walkers step together (case["steps"][t][w] = (bin, fraction, force)); after the steps listed in
+    case["gather_at"] every walker runs the end-of-run output (collective gather).  Returns the per-walker
+    dumps after each gather."""
+    n = case["n"]
+    dirs = []
+    for i in range(n):
+        d = os.path.join(scratch, "z%d" % i)
+        shutil.rmtree(d, ignore_errors=True)
+        os.makedirs(d)
+        dirs.append(d)
+    res = []
+    with W.Team(exe, n, dirs, timeout_ms=4000) as T:
+        setup = ["natoms 1", "samestep 1", "temperature 300", "dt 1", "new", "config EOF"] + czar_conf(case) + \
+                ["EOF", "outprefix out", "show cv 0 energy 0 bias 0 atomf 0"]
+        for r in T.all_do(setup, timeout):
+            if not any(x.startswith("CONFIG err=ok") for x in r):
+                raise W.WalkerTimeout("configuration failed: %s" % r)
+        for t, row in enumerate(case["steps"]):
+            T.all_do(lambda i: ["pos 1 0 0 %s" % float(row[i][0] + row[i][1]).hex(),
+                                "eforce 1 0 0 %s" % float(row[i][2]).hex(), "step"], timeout)
+            if t in case["gather_at"]:
+                out = T.all_do(["postrun", "dumpshared a"], timeout)
+                res.append((t, [parse_shared(r) for r in out], [[x for x in r if x.startswith("POSTRUN")] for r in out]))
+        stats = T.all_do(["repstat"], timeout)
+    return res, stats
